@@ -1,1 +1,7 @@
 //! Kani harnesses compiled as a child module of rustzx-core/src/zx/joy/kempston.rs (cfg(kani) only).
+#![allow(dead_code)]
+use super::*;
+
+pub(crate) fn set_state(k: &mut KempstonJoy, v: u8) {
+    k.state = v;
+}
